@@ -252,7 +252,7 @@ PROPS["C06"] = {
     "required_theorems": ["limits_pinned", "conv_eq", "readFrame_spec", "scanCut_spec", "cut_stream", "damage_checks_present", "dense_column_mismatch",
                           "dense_short_version_column", "way_user_out_of_range", "tags_key_out_of_range", "rel_column_mismatch", "block_with_bad_group"],
     "technique": "Lean 4 model of the framing reader on a stream that ends early (io.ReadFull contract assumed, EOF handling of the three readers regenerated from the source): theorem for every stream of frames and every cut offset - objects of the complete blocks, success only on a block boundary; the rejecting checks of every damage class pinned in the regenerated function bodies; the real scanner run on every byte offset of generated files and on every damage class at every block position, each damaged scan in an isolated child process with a watchdog",
-    "level_text": "Machine-checked proof over all streams and all cut offsets: with the EOF handling read from readBlobHeaderSize / readBlobHeader / readBlob, a stream of frames cut to k bytes yields exactly the objects of the frames present in full and ends in success iff k is a frame boundary (in particular not right after a length prefix or a blob header). Pinned in the regenerated bodies: the oversized/negative size checks, the raw-size and encoding checks of getData, the block type checks for the first and for later blocks, the required-feature gate, the plain-node rejection, the recover in Decode, the three mandatory dense columns. Correspondence: every byte offset 0..len of generated files, and 20 damage classes at every block position with 1..4 decoders; a child process per damaged scan makes a crash the observed result of that case, a watchdog reports hangs; the prefix of objects before the damage is compared with the model.",
+    "level_text": "Known finding (open, cgo build only): a zlib stream followed by one extra byte makes the scan spin inside the third-party czlib reader (pbf-hang-zlib-trailing-byte; witness op ztrail). Machine-checked proof over all streams and all cut offsets: with the EOF handling read from readBlobHeaderSize / readBlobHeader / readBlob, a stream of frames cut to k bytes yields exactly the objects of the frames present in full and ends in success iff k is a frame boundary (in particular not right after a length prefix or a blob header). Pinned in the regenerated bodies: the oversized/negative size checks, the raw-size and encoding checks of getData, the block type checks for the first and for later blocks, the required-feature gate, the plain-node rejection, the recover in Decode, the three mandatory dense columns. Correspondence: every byte offset 0..len of generated files, and 20 damage classes at every block position with 1..4 decoders; a child process per damaged scan makes a crash the observed result of that case, a watchdog reports hangs; the prefix of objects before the damage is compared with the model.",
     "level_note": "Trusted: Lean kernel; the fact extractor; the io.ReadFull contract; protobuf / zlib error reporting on corrupt bytes (exercised). That each pinned check fires on its damage class is shown by running it, not proved. A way whose lat/lon columns are longer than an EMPTY refs column is accepted silently by the library (nodes with id 0 are made up from the coordinates); it is not one of the property's damage classes and is recorded in DESIGN.md as an observation.",
     "design_ref": "DESIGN.md §5 C06",
     "trusted_base": ["io.ReadFull contract", "protobuf / zlib error detection", "harness protobuf writer and damage injector harness/c06.go"],
